@@ -117,6 +117,17 @@ class Closure:
         self.node, self.env = node, env
 
 
+class SpecLambda:
+    """specification macro: SpecLambda("lambda x: ite(x > high, high, x)"); free
+    names are resolved in the state where it is called"""
+    def __init__(self, text):
+        node = ast.parse(text.strip(), mode="eval").body
+        assert isinstance(node, ast.Lambda)
+        self.params = [a.arg for a in node.args.args]
+        self.body = node.body
+        self.text = text
+
+
 class UFn:
     """uninterpreted function value"""
     def __init__(self, decl, nargs):
@@ -208,6 +219,9 @@ def zand(*xs):
 def zor(*xs):
     xs = [to_bool(x) for x in xs]
     return z3.Or(*xs) if len(xs) != 1 else xs[0]
+
+
+FDIV = z3.Function("FDIV", REAL, REAL, INT)
 
 
 def py_floordiv_int(a, b):
@@ -337,6 +351,7 @@ class Machine:
     trace.  A fresh Machine is created for every path."""
 
     FEAS_RLIMIT = 2_000_000
+    FEAS_TIMEOUT_MS = 400
 
     def __init__(self, fn_node, contract, mode, explorer, prefix, callees=None, globs=None):
         self.fn = fn_node
@@ -363,7 +378,10 @@ class Machine:
         self.covered = set()       # cut points reached
         self._feas = z3.Solver()
         self._feas.set("rlimit", self.FEAS_RLIMIT)
+        self._feas.set("timeout", self.FEAS_TIMEOUT_MS)
         self._feas_n = 0
+        self._synth = {}
+        self._lemmas_done = False
 
     # ---- infrastructure -------------------------------------------------
     def fresh(self, prefix, sort):
@@ -552,7 +570,7 @@ class Machine:
     def iter_of(self, v):
         """iter(v)"""
         if isinstance(v, Ref):
-            if v.kind == "iter":
+            if v.kind in ("iter", "gen"):
                 return v
             if v.kind == "list":
                 return self.new_iter(v.elem, "list", finite=True, arr=self.heap[(v.id, "arr")], length=self.heap[(v.id, "len")])
@@ -707,8 +725,20 @@ class Machine:
 
     def e_BoolOp(self, node):
         if self.spec_mode:
-            vals = [self.truth(self.eval(v)) for v in node.values]
-            return (zand if isinstance(node.op, ast.And) else zor)(*vals)
+            # logical connective; an operand that is concretely decided
+            # short-circuits (so `x is not None and x > 0` is well formed)
+            is_and = isinstance(node.op, ast.And)
+            vals = []
+            for vn in node.values:
+                t = self.truth(self.eval(vn))
+                if isinstance(t, bool):
+                    if t != is_and:
+                        return t
+                    continue
+                vals.append(t)
+            if not vals:
+                return is_and
+            return (zand if is_and else zor)(*vals)
         # Python semantics: short circuit, value of the deciding operand
         is_and = isinstance(node.op, ast.And)
         last = None
@@ -799,7 +829,7 @@ class Machine:
                 raise PyRaise("ZeroDivisionError")
             if za.sort() == INT:
                 return py_mod_int(za, zb)
-            return za - zb * z3.ToReal(z3.ToInt(za / zb))
+            return self.real_mod(za, zb)
         if isinstance(op, ast.Pow):
             if isinstance(b, int) and 0 <= b <= 8:
                 r = to_z3num(1) if za.sort() == INT else to_real(1)
@@ -808,6 +838,16 @@ class Machine:
                 return r
             raise Unsupported("power with a symbolic or large exponent")
         raise Unsupported("operator %s" % type(op).__name__)
+
+    def real_mod(self, za, zb):
+        """a % b for reals with Python's sign rule: a == FDIV(a,b)*b + r, r in [0,b) or (b,0].
+        FDIV is an uninterpreted function constrained at each use, so that
+        specifications can name the integer quotient (no division term is
+        given to the solver)."""
+        q = FDIV(za, zb)
+        r = za - zb * z3.ToReal(q)
+        self.assume(z3.If(zb > 0, z3.And(r >= 0, r < zb), z3.And(r <= 0, r > zb)))
+        return r
 
     def e_Compare(self, node):
         left = self.eval(node.left)
@@ -963,7 +1003,15 @@ class Machine:
         if isinstance(f, Builtin) and f.name.startswith("spec:"):
             return SPEC_FUNCS[f.name[5:]](self, node)
         args = []
+        consuming = isinstance(f, Builtin) and f.name in CONSUMERS
         for a in node.args:
+            if consuming and isinstance(a, ast.GeneratorExp) and not self.spec_mode:
+                out, nout, elem = self.run_comp(a, lazy=False)
+                rid = self.new_id("consumed")
+                r = Ref("consumed", rid, elem)
+                self.heap[(rid, "out")], self.heap[(rid, "n")] = out, nout
+                args.append(r)
+                continue
             if isinstance(a, ast.Starred):
                 v = self.eval(a.value)
                 if not isinstance(v, tuple):
@@ -995,6 +1043,16 @@ class Machine:
             return f.decl(*zargs)
         if isinstance(f, Closure):
             return self.call_closure(f, args, kwargs)
+        if isinstance(f, SpecLambda):
+            if not self.spec_mode:
+                raise Unsupported("specification macro called from code")
+            if len(args) != len(f.params) or kwargs:
+                raise Unsupported("specification macro arity")
+            self.quant_scope.append(dict(zip(f.params, args)))
+            try:
+                return self.eval(f.body)
+            finally:
+                self.quant_scope.pop()
         if isinstance(f, ExcClass):
             return ExcValue(f.name, args[0] if args else "")
         if callable(f) and getattr(f, "_pyvc_callee", False):
@@ -1060,7 +1118,127 @@ class Machine:
 
     # comprehension used as an expression: only through builtins that consume it
     def e_GeneratorExp(self, node):
-        return Closure(node, dict(self.locals))
+        if self.spec_mode:
+            raise Unsupported("generator expression inside a specification")
+        return self.run_comp(node, lazy=True)
+
+    def e_ListComp(self, node):
+        out, nout, elem = self.run_comp(node, lazy=False)
+        return self.new_list(elem, arr=out, length=nout)
+
+    # ---- comprehensions / generator expressions ----------------------------------
+    def snapshot(self):
+        return (dict(self.locals), dict(self.heap), len(self.pc), dict(self.ghost), dict(self.hidden))
+
+    def restore(self, snap):
+        self.locals, self.heap, npc, self.ghost, self.hidden = dict(snap[0]), dict(snap[1]), snap[2], dict(snap[3]), dict(snap[4])
+        del self.pc[npc:]
+        self._feas = z3.Solver()
+        self._feas.set("rlimit", self.FEAS_RLIMIT)
+        self._feas.set("timeout", self.FEAS_TIMEOUT_MS)
+        self._feas_n = 0
+
+    def comp_loop(self, node):
+        """synthetic `for target in it: [if c:] yield elt` for a comprehension"""
+        key = id(node)
+        if key in self._synth:
+            return self._synth[key]
+        if len(node.generators) != 1 or node.generators[0].is_async:
+            raise Unsupported("comprehension with several for-clauses")
+        g = node.generators[0]
+        n = self.comp_ord[id(node)]
+        elt = node.elt if not isinstance(node, ast.DictComp) else ast.Tuple(elts=[node.key, node.value], ctx=ast.Load())
+        y = ast.Yield(value=elt)
+        body = ast.Expr(value=y)
+        for cond in reversed(g.ifs):
+            body = ast.If(test=cond, body=[body], orelse=[])
+        itname = "__comp_iter_%d" % n
+        forn = ast.For(target=g.target, iter=ast.Name(id=itname, ctx=ast.Load()), body=[body], orelse=[])
+        for nd in ast.walk(forn):
+            if not hasattr(nd, "lineno"):
+                nd.lineno = node.lineno
+                nd.col_offset = node.col_offset
+        ast.fix_missing_locations(forn)
+        self.loop_ord[id(forn)] = self.loop_ord[id(node)]
+        self.yield_ord[id(y)] = "g%d" % n
+        self._synth[key] = (forn, itname, n, g)
+        return self._synth[key]
+
+    def run_comp(self, node, lazy):
+        """lazy: verify the generator expression as a generator of its own (its
+        obligations are emitted on this path), roll the state back and return a
+        generator object.  not lazy: the comprehension is consumed here and now;
+        returns (out array, count)."""
+        forn, itname, n, g = self.comp_loop(node)
+        cspec = self.c.comps.get(n)
+        if cspec is None:
+            raise Unsupported("comprehension %d (line %d) has no clauses in the sidecar" % (n, node.lineno))
+        itv = self.eval(g.iter)
+        it = self.iter_of(itv)           # evaluated eagerly, as Python does
+        snap = self.snapshot() if lazy else None
+        self.locals[itname] = it
+        outer_ghost = self.ghost
+        self.ghost = {k: v for k, v in outer_ghost.items() if k in self.c.ghost_const}
+        self.ghost["nout"] = z3.IntVal(0)
+        self.ghost["out"] = self.fresh("gout%d" % n, z3.ArraySort(INT, cspec.elem.sort))
+        for text in cspec.ghost_init:
+            self.ghost_exec(text)
+        was_gen = self.is_generator
+        self.is_generator = True
+        self.covered.add("g%d" % n)
+        try:
+            try:
+                self.exec(forn)
+            except PyRaise as e:
+                exc = "RuntimeError" if e.exc == "StopIteration" else e.exc
+                if exc in cspec.raises:
+                    cond = cspec.raises[exc]
+                    self.oblige("g%d/raises/%s/only-if" % (n, exc), True if cond is None else self.spec(cond))
+                else:
+                    self.oblige("g%d/raises/%s/never" % (n, exc), False,
+                                note="exception %s escapes the generator expression at line %d%s" % (
+                                    exc, self.curline, " (StopIteration inside a generator, PEP 479)" if exc != e.exc else ""))
+                if lazy:
+                    raise PathEnd()
+                self.is_generator = was_gen
+                self.ghost = outer_ghost
+                raise PyRaise(exc)
+            for label, text in cspec.ensures:
+                self.oblige("g%d/exit/%s" % (n, label), self.spec(text))
+            for exc, cond in cspec.raises.items():
+                if cond is not None:
+                    self.oblige("g%d/exit/no-%s" % (n, exc), z3.Not(to_bool(self.spec(cond))))
+            out, nout = self.ghost["out"], self.ghost["nout"]
+        finally:
+            self.is_generator = was_gen
+        self.ghost = outer_ghost
+        if lazy:
+            self.restore(snap)
+            rid = self.new_id("gen")
+            r = Ref("gen", rid, cspec.elem)
+            self.heap[(rid, "label")] = "g%d" % n
+            self.heap[(rid, "src")] = it
+            return r
+        self.locals.pop(itname, None)
+        return out, nout, cspec.elem
+
+    def emit_lemmas(self):
+        if len(self.trace) == 0 and self.tidx == 0 and not self._lemmas_done:
+            for label, text in self.c.theorems:
+                self.oblige("theorem/%s" % label, self.spec(text))
+        for lem in self.c.lemmas:
+            v = z3.Int("%s!lem" % lem.var)
+            q = lambda t: to_bool(self.spec(lem.statement, {lem.var: t}))
+            if len(self.trace) == 0 and self.tidx == 0 and not self._lemmas_done:
+                self.oblige("lemma/%s/base" % lem.name, q(z3.IntVal(lem.base)))
+                saved = len(self.pc)
+                self.pc.append(v >= lem.base)
+                self.pc.append(q(v))
+                self.oblige("lemma/%s/step" % lem.name, q(v + 1))
+                del self.pc[saved:]
+            w = z3.Int("%s!lemq" % lem.var)
+            self.assume(z3.ForAll([w], z3.Implies(w >= lem.base, q(w))))
+        self._lemmas_done = True
 
     # ---- specification evaluation --------------------------------------------
     def spec(self, text, extra=None):
@@ -1345,12 +1523,18 @@ class Machine:
         k = self.yield_ord[id(node)]
         v = self.eval(node.value) if node.value is not None else None
         spec = self.c.yields.get(k) or self.c.yields.get("*")
-        self.covered.add("yield%d" % k)
+        self.covered.add("yield%s" % k)
         if spec is None:
-            raise Unsupported("yield %d has no clause in the sidecar" % k)
+            raise Unsupported("yield %s has no clause in the sidecar" % k)
         extra = {"result": v, "k": self.ghost["nout"]}
+        for stmt in spec.ghost_before:
+            self.ghost_exec(stmt, extra)
+        for label, text in spec.hints:
+            h = self.spec(text, extra)
+            self.oblige("yield%s/hint/%s" % (k, label), h)
+            self.assume(h)
         for label, text in spec.post:
-            self.oblige("yield%d/%s" % (k, label), self.spec(text, extra))
+            self.oblige("yield%s/%s" % (k, label), self.spec(text, extra))
         if "out" in self.ghost and is_z3(v) or ("out" in self.ghost and is_num(v)):
             out = self.ghost["out"]
             zv = v if is_z3(v) else to_z3num(v)
@@ -1416,6 +1600,9 @@ class Machine:
                 self.ghost["out"] = z3.Const("out0", z3.ArraySort(INT, c.out_elem.sort))
             for text in c.ghost_init:
                 self.ghost_exec(text)
+            for label, text in c.axioms:
+                self.assume(self.spec(text))
+            self.emit_lemmas()
             if not self.feasible():
                 raise Infeasible()
             self.covered.add("entry")
@@ -1514,9 +1701,12 @@ def _sf_quant(kind):
 
 
 def _sf_implies(m, node):
-    a, b = (m.truth(m.eval(x)) for x in node.args)
+    a = m.truth(m.eval(node.args[0]))
+    if isinstance(a, bool) and not a:
+        return True
+    b = m.truth(m.eval(node.args[1]))
     if isinstance(a, bool):
-        return True if not a else b
+        return b
     return z3.Implies(a, to_bool(b))
 
 
@@ -1564,7 +1754,57 @@ def _sf_isint(m, node):
     return z3.IsInt(v)
 
 
+def _sf_is_stream(m, node):
+    v = m.eval(node.args[0])
+    return isinstance(v, Ref) and v.kind == "obj" and v.elem in ("Stream", "StreamTeeHub", "ControlStream", "Streamix")
+
+
+def _sf_data_of(m, node):
+    v = m.eval(node.args[0])
+    return m.heap[(v.id, "_data")]
+
+
+def _sf_gen_label(m, node):
+    v = m.eval(node.args[0])
+    if isinstance(v, Ref) and v.kind == "gen":
+        return m.heap[(v.id, "label")]
+    return "<not a generator expression>"
+
+
+def _sf_src_of(m, node):
+    v = m.eval(node.args[0])
+    return m.heap[(v.id, "src")]
+
+
+def _sf_same(m, node):
+    a, b = m.eval(node.args[0]), m.eval(node.args[1])
+    if isinstance(a, Ref) and isinstance(b, Ref):
+        return a.id == b.id
+    return a is b
+
+
+def _sf_captured(m, node):
+    v = m.eval(node.args[0])
+    name = m.eval(node.args[1])
+    if isinstance(v, Closure):
+        return v.env[name]
+    raise Unsupported("captured() of %r" % (v,))
+
+
+def _sf_is_closure(m, node):
+    v = m.eval(node.args[0])
+    name = m.eval(node.args[1])
+    return isinstance(v, Closure) and getattr(v.node, "name", None) == name
+
+
+def _sf_fdiv(m, node):
+    a, b = (to_real(m.eval(x)) for x in node.args)
+    return FDIV(a, b)
+
+
 SPEC_FUNCS = {
+    "FDIV": _sf_fdiv, "is_stream": _sf_is_stream, "data_of": _sf_data_of, "gen_label": _sf_gen_label, "src_of": _sf_src_of,
+    "same": _sf_same, "captured": _sf_captured, "is_closure": _sf_is_closure,
     "forall": _sf_quant("forall"), "exists": _sf_quant("exists"), "implies": _sf_implies, "ite": _sf_ite,
     "reads": _sf_reads, "pos": _sf_reads, "length": _iter_field("len"), "finite": _sf_finite,
     "lo": _iter_field("lo"), "hi": _iter_field("hi"), "hist": _iter_field("hist"), "arr": _iter_field("arr"),
@@ -1657,7 +1897,16 @@ def _b_abs(m, args, kw):
 def _minmax(is_max):
     def f(m, args, kw):
         if "key" in kw:
-            raise Unsupported("min/max with key")
+            if len(args) < 2:
+                raise Unsupported("min/max of an iterable with key")
+            keys = [m.call(kw["key"], [a], {}) for a in args]
+            r, rk = args[0], keys[0]
+            for a, ak in zip(args[1:], keys[1:]):
+                zrk, zak = coerce_pair(rk, ak)
+                better = (zak > zrk) if is_max else (zak < zrk)
+                zr, za = coerce_pair(r, a)
+                r, rk = z3.If(better, za, zr), z3.If(better, zak, zrk)
+            return r
         if len(args) == 1:
             raise Unsupported("min/max of an iterable")
         if all(isinstance(a, (int, fractions.Fraction)) and not isinstance(a, bool) for a in args):
@@ -1673,8 +1922,21 @@ def _minmax(is_max):
 
 def _b_deque(m, args, kw):
     maxlen = kw.get("maxlen")
+    if len(args) > 1:
+        maxlen = args[1]
     if args:
-        raise Unsupported("deque(iterable)")
+        src = args[0]
+        if isinstance(src, Ref) and src.kind == "consumed":
+            out, n, elem = m.heap[(src.id, "out")], m.heap[(src.id, "n")], src.elem
+        elif isinstance(src, Ref) and src.kind == "list":
+            out, n, elem = m.heap[(src.id, "arr")], m.heap[(src.id, "len")], src.elem
+        else:
+            raise Unsupported("deque(%r)" % (src,))
+        d = m.new_deque(elem, maxlen)
+        m.heap[(d.id, "hist")] = out
+        m.heap[(d.id, "hi")] = n
+        m.heap[(d.id, "lo")] = z3.IntVal(0) if maxlen is None else z3.simplify(z3.If(n - to_z3num(maxlen) > 0, n - to_z3num(maxlen), 0))
+        return d
     return m.new_deque(m.c.default_elem, maxlen)
 
 
@@ -1688,11 +1950,22 @@ def _b_isinstance(m, args, kw):
 def _b_list(m, args, kw):
     if not args:
         return m.new_list(m.c.default_elem, length=0)
+    r = _consumed_to_list(m, args[0])
+    if r is not None:
+        return r
     h = m.c.consume_hook
     if h is None:
         raise Unsupported("list(iterable)")
     return h(m, "list", args[0])
 
+
+def _consumed_to_list(m, src):
+    if isinstance(src, Ref) and src.kind == "consumed":
+        return m.new_list(src.elem, arr=m.heap[(src.id, "out")], length=m.heap[(src.id, "n")])
+    return None
+
+
+CONSUMERS = {"deque", "list", "tuple", "sum", "all", "any", "max", "min", "sorted", "set"}
 
 BUILTINS = {
     "next": _b_next, "iter": _b_iter, "xrange": _b_xrange, "range": _b_xrange, "len": _b_len, "int": _b_int,
